@@ -1,7 +1,7 @@
 #!/usr/bin/env python3
 """rust2coq: regenerate the T-gen part of the Coq model from /repo's current sources.
 
-Three front ends (DESIGN.md section 4):
+Front ends (DESIGN.md section 4):
   (a) generated-code front end: the per-struct functions of src/frame/{mutable.rs,immutable/*.rs}
       -> syntax tables (Gen/Tables.v);
   (b) expression front end: small pure functions and constants -> Gallina definitions (Gen/Funs.v);
@@ -11,7 +11,14 @@ Three front ends (DESIGN.md section 4):
   (d) writer-table front end: the `sizes.push` tree of payload_sizes (src/io/slippi/ser.rs) -> Gen/WriterSizes.v
       (checked against Model/Writer.v by Proofs/WriterLayout.v); the tar_append sequence of src/io/peppi/ser.rs
       fn write and the file-name match of src/io/peppi/de.rs fn read -> Gen/SlppEntries.v (checked against
-      Model/Slpp.v by Proofs/SlppLayout.v).
+      Model/Slpp.v by Proofs/SlppLayout.v);
+  (e) frame-write front end: Frame::write, PortData/Data::write_pre/post (src/frame/immutable/slippi.rs) ->
+      Gen/FrameWrite.v (Proofs/FrameWriteLayout.v);
+  (f) message-splitter front end: handle_splitter_event (de.rs) and gecko_codes (ser.rs) -> Gen/Splitter.v
+      (Proofs/SplitterLayout.v);
+  (g) read()-tail front end: skip-frames arithmetic, loop condition, frame_close gate, duplicate Game End, metadata
+      dispatch of src/io/slippi/de.rs fn read, through the expression front end -> Gen/ReadTail.v (Proofs/ReadLayout.v);
+  (h) UBJSON marker front end: src/io/ubjson/{de,ser}.rs -> Gen/UbjsonMarkers.v (Proofs/UbjsonLayout.v).
 
 Anything it does not recognise is a loud failure (exit 3, message naming file/item/token): the checks then
 treat every property that depends on the tables as "tie broken" and go searching for a failing input.
@@ -2466,6 +2473,763 @@ def gen_slpp_entries():
     return '\n'.join(L) + '\n'
 
 
+# ------------------------------------------------------------------------------------------------
+# (e) frame-write front end: Frame::write, PortData::write_pre/post, Data::write_pre/post
+#     (hand-written head of src/frame/immutable/slippi.rs)
+
+FW_RS = 'src/frame/immutable/slippi.rs'
+FW_DECL = 'src/frame/immutable/mod.rs'
+VALID_COND = 'self . validity . as_ref ( ) . map_or ( true , | v | v . get_bit ( idx ) )'
+
+
+def fw_header_write(s, where, events):
+    """one `w.write_..(..)?` statement of an event header -> Coq hfield"""
+    m = re.fullmatch(r'w \. write_u8 \( Event :: (\w+) as u8 \) \?', s)
+    if m:
+        if m.group(1) not in events:
+            raise TranslateError('%s: Event::%s is not a variant of de::Event' % (where, m.group(1)))
+        return 'HCode %s' % coq_str(m.group(1))
+    if s == 'w . write_i32 :: < BE > ( frame_id ) ?':
+        return 'HFrameIdI32'
+    if s == 'w . write_u8 ( port . port as u8 ) ?':
+        return 'HPortU8'
+    if s == 'w . write_u8 ( match port . follower { true => 1 , _ => 0 } ) ?':
+        return 'HFollowerU8'
+    raise TranslateError('%s: unrecognised write in an event header: %s' % (where, s[:200]))
+
+
+def sjp(toks):
+    """sj of a parameter list: a trailing comma dropped"""
+    s = sj(toks)
+    return s[:-2] if s.endswith(' ,') else s
+
+
+def fw_record_of(decl, field, where, optional):
+    ty = dict(decl).get(field)
+    if ty is None:
+        raise TranslateError('%s: self.%s is not a field of the struct' % (where, field))
+    m = re.fullmatch(r'Option < (\w+) >', ty)
+    if optional != bool(m):
+        raise TranslateError('%s: field %s has type %s' % (where, field, ty))
+    rec = m.group(1) if m else ty
+    if rec not in GEN_STRUCTS:
+        raise TranslateError('%s: field %s: %s is not a generated record' % (where, field, rec))
+    return rec
+
+
+def fw_stmts(toks, where):
+    sv = StmtView(toks, where)
+    return [toks[a:b] for (a, b) in sv.statements(0, len(toks))]
+
+
+def fw_if_block(st, where):
+    """`if COND { BODY }` without else -> (cond text, body tokens) or None"""
+    if tv(st[:1]) != ['if']:
+        return None
+    sv = StmtView(st, where)
+    j = sv.first_top(1, len(st), '{')
+    if j < 0 or match_close(st, j) != len(st) - 1:
+        raise TranslateError('%s: `if` with an `else` or trailing tokens: %s' % (where, sj(st)[:200]))
+    return sj(st[1:j]), st[j + 1:len(st) - 1]
+
+
+def fw_for_block(st, where):
+    """`for HEAD { BODY }` -> (head text, body tokens) or None"""
+    if tv(st[:1]) != ['for']:
+        return None
+    sv = StmtView(st, where)
+    j = sv.first_top(1, len(st), '{')
+    if j < 0 or match_close(st, j) != len(st) - 1:
+        raise TranslateError('%s: unrecognised `for`: %s' % (where, sj(st)[:200]))
+    return sj(st[1:j]), st[j + 1:len(st) - 1]
+
+
+def gen_frame_write():
+    all_toks = tokenize(read(FW_RS), FW_RS)
+    decl_toks = tokenize(read(FW_DECL), FW_DECL)
+    if find_seq(all_toks, ['type', 'BE', '=', 'byteorder', '::', 'BigEndian', ';']) < 0:
+        raise TranslateError('%s: `type BE = byteorder::BigEndian;` not found' % FW_RS)
+    if 'Event' not in imported_from(FW_RS, ['io', '::', 'slippi']) and find_seq(all_toks, ['de', '::', 'Event']) < 0:
+        raise TranslateError('%s: Event is not imported from io::slippi::de' % FW_RS)
+    if find_seq(all_toks, ['de', '::', 'Event']) < 0:
+        raise TranslateError('%s: `de::Event` import not found' % FW_RS)
+    events = dict(enum_codes('src/io/slippi/de.rs', 'Event'))
+    data_decl = parse_struct_decl(decl_toks, 'Data', FW_DECL)
+    port_decl = parse_struct_decl(decl_toks, 'PortData', FW_DECL)
+    frame_decl = parse_struct_decl(decl_toks, 'Frame', FW_DECL)
+    if dict(port_decl).get('leader') != 'Data' or dict(port_decl).get('follower') != 'Option < Data >':
+        raise TranslateError('%s: PortData is not { leader: Data, follower: Option<Data>, .. }' % FW_DECL)
+    if dict(frame_decl).get('ports') != 'Vec < PortData >' or dict(data_decl).get('validity') != 'Option < Bitmap >':
+        raise TranslateError('%s: Frame.ports / Data.validity have unexpected types' % FW_DECL)
+
+    fns = {}
+    for kind, name, frm, body in impl_blocks(all_toks):
+        if kind == 'impl' and name in ('Data', 'PortData', 'Frame'):
+            for n, params, ret, b in fns_in(body):
+                fns[(name, n)] = (params, ret, b)
+    expected = {('Data', 'write_pre'), ('Data', 'write_post'), ('PortData', 'write_pre'), ('PortData', 'write_post'), ('Frame', 'write')}
+    if set(fns) != expected:
+        raise TranslateError('%s: impl Data/PortData/Frame: expected exactly the functions %s, found %s' % (FW_RS, sorted(expected), sorted(fns)))
+
+    # ---- Data::write_pre / write_post
+    data_rows = []
+    for m_ in ('write_pre', 'write_post'):
+        where = '%s Data::%s' % (FW_RS, m_)
+        params, ret, body = fns[('Data', m_)]
+        if sjp(params) != '& self , w : & mut W , version : Version , idx : usize , frame_id : i32 , port : PortOccupancy':
+            raise TranslateError('%s: unexpected parameters: %s' % (where, sj(params)))
+        sts = fw_stmts(body, where)
+        blk = fw_if_block(sts[0], where) if sts else None
+        if len(sts) != 2 or blk is None or blk[0] != VALID_COND or sj(sts[1]) != 'Ok ( ( ) )':
+            raise TranslateError('%s: not `if self.validity.as_ref().map_or(true, |v| v.get_bit(idx)) { .. } Ok(())`: %s' % (where, sj(body)[:200]))
+        inner = [sj(x) for x in fw_stmts(blk[1], where)]
+        if not inner:
+            raise TranslateError('%s: empty body' % where)
+        m = re.fullmatch(r'self \. (\w+) \. write \( w , version , idx \) \?', inner[-1])
+        if not m:
+            raise TranslateError('%s: the last statement is not `self.<field>.write(w, version, idx)?`: %s' % (where, inner[-1][:200]))
+        hdr = [fw_header_write(s, where, events) for s in inner[:-1]]
+        data_rows.append((m_, hdr, m.group(1), fw_record_of(data_decl, m.group(1), where, False)))
+
+    # ---- PortData::write_pre / write_post
+    port_rows = []
+    call = r'(\w+) \( w , version , idx , frame_id , PortOccupancy \{ port : self \. port , follower : (true|false) \} \)'
+    for m_ in ('write_pre', 'write_post'):
+        where = '%s PortData::%s' % (FW_RS, m_)
+        params, ret, body = fns[('PortData', m_)]
+        if sjp(params) != '& self , w : & mut W , version : Version , idx : usize , frame_id : i32':
+            raise TranslateError('%s: unexpected parameters: %s' % (where, sj(params)))
+        sts = [sj(x) for x in fw_stmts(body, where)]
+        if len(sts) != 2:
+            raise TranslateError('%s: expected two statements (leader, follower), found %d' % (where, len(sts)))
+        m1 = re.fullmatch(r'self \. leader \. ' + call + r' \?', sts[0])
+        m2 = re.fullmatch(r'self \. follower \. as_ref \( \) \. map_or \( Ok \( \( \) \) , \| f \| \{ if f \. validity \. as_ref \( \) \. map_or '
+                          r'\( true , \| v \| v \. get_bit \( idx \) \) \{ f \. ' + call + r' \} else \{ Ok \( \( \) \) \} \} \)', sts[1])
+        if not m1:
+            raise TranslateError('%s: unrecognised leader statement: %s' % (where, sts[0][:300]))
+        if not m2:
+            raise TranslateError('%s: unrecognised follower statement: %s' % (where, sts[1][:300]))
+        for mm in (m1, m2):
+            if ('Data', mm.group(1)) not in fns:
+                raise TranslateError('%s: calls %s, which is not a function of impl Data' % (where, mm.group(1)))
+        port_rows.append((m_, [('leader', m1.group(1), m1.group(2), 'false'), ('follower', m2.group(1), m2.group(2), 'true')]))
+
+    # ---- Frame::write
+    where = '%s Frame::write' % FW_RS
+    params, ret, body = fns[('Frame', 'write')]
+    if sjp(params) != '& self , w : & mut W , version : Version':
+        raise TranslateError('%s: unexpected parameters: %s' % (where, sj(params)))
+    sts = fw_stmts(body, where)
+    loop = fw_for_block(sts[0], where) if sts else None
+    if len(sts) != 2 or loop is None or loop[0] != '( idx , & frame_id ) in self . id . values ( ) . iter ( ) . enumerate ( )' or sj(sts[1]) != 'Ok ( ( ) )':
+        raise TranslateError('%s: not `for (idx, &frame_id) in self.id.values().iter().enumerate() { .. } Ok(())`' % where)
+
+    def row_step(stmts, idx_var):
+        """[header writes.., self.F.as_ref().unwrap().write(w, version, <idx_var>)?] -> (header, field, record)"""
+        ss = [sj(x) for x in stmts]
+        m = re.fullmatch(r'self \. (\w+) \. as_ref \( \) \. unwrap \( \) \. write \( w , version , %s \) \?' % idx_var, ss[-1]) if ss else None
+        if not m:
+            raise TranslateError('%s: expected `self.<field>.as_ref().unwrap().write(w, version, %s)?` after the header: %s'
+                                 % (where, idx_var, (ss[-1] if ss else '')[:200]))
+        hdr = [fw_header_write(s, where, events) for s in ss[:-1]]
+        if any(h in ('HPortU8', 'HFollowerU8') for h in hdr):
+            raise TranslateError('%s: port bytes in a per-frame event header' % where)
+        return hdr, m.group(1), fw_record_of(frame_decl, m.group(1), where, True)
+
+    def step(st):
+        fb = fw_for_block(st, where)
+        if fb is not None:
+            if fb[0] != 'port in & self . ports':
+                raise TranslateError('%s: unrecognised loop: for %s' % (where, fb[0][:200]))
+            inner = [sj(x) for x in fw_stmts(fb[1], where)]
+            m = re.fullmatch(r'port \. (\w+) \( w , version , idx , frame_id \) \?', inner[0]) if len(inner) == 1 else None
+            if not m or ('PortData', m.group(1)) not in fns:
+                raise TranslateError('%s: the body of `for port in &self.ports` is not `port.<write_pre|write_post>(w, version, idx, frame_id)?;`: %s'
+                                     % (where, ' ; '.join(inner)[:200]))
+            return 'FsPorts %s' % coq_str(m.group(1))
+        return None
+
+    def steps_of(stmts, gate):
+        """statements of the loop body (gate None) or of an `if version.gte(..)` block -> [(fstep, gate)]"""
+        out = []
+        i = 0
+        while i < len(stmts):
+            st = stmts[i]
+            s = sj(st)
+            ib = fw_if_block(st, where)
+            if ib is not None:
+                m = re.fullmatch(r'version \. gte \( (\d+) , (\d+) \)', ib[0])
+                if not m or gate is not None:
+                    raise TranslateError('%s: unrecognised or nested condition: if %s' % (where, ib[0][:200]))
+                out.extend(steps_of(fw_stmts(ib[1], where), (int(m.group(1)), int(m.group(2)))))
+                i += 1
+                continue
+            ps = step(st)
+            if ps is not None:
+                out.append((ps, gate))
+                i += 1
+                continue
+            m = re.fullmatch(r'let (\w+) = self \. (\w+) \. as_ref \( \) \. unwrap \( \)', s)
+            if m and i + 1 < len(stmts):
+                off, off_field = m.group(1), m.group(2)
+                if dict(frame_decl).get(off_field) != 'Option < OffsetsBuffer < i32 > >':
+                    raise TranslateError('%s: %s is not an Option<OffsetsBuffer<i32>> field' % (where, off_field))
+                fb = fw_for_block(stmts[i + 1], where)
+                if fb is None or fb[0] != 'item_idx in ( %s [ idx ] as usize ) .. ( %s [ idx + 1 ] as usize )' % (off, off):
+                    raise TranslateError('%s: expected `for item_idx in (%s[idx] as usize)..(%s[idx + 1] as usize)`: %s'
+                                         % (where, off, off, sj(stmts[i + 1])[:200]))
+                hdr, field, rec = row_step(fw_stmts(fb[1], where), 'item_idx')
+                out.append(('FsItems [%s] %s %s %s' % ('; '.join(hdr), coq_str(off_field), coq_str(field), coq_str(rec)), gate))
+                i += 2
+                continue
+            # a run of header writes closed by the record write
+            j = i
+            while j < len(stmts) and not re.match(r'self \. ', sj(stmts[j])):
+                if not sj(stmts[j]).startswith('w . write_'):
+                    raise TranslateError('%s: unrecognised statement: %s' % (where, sj(stmts[j])[:200]))
+                j += 1
+            if j >= len(stmts):
+                raise TranslateError('%s: header writes without a record write: %s' % (where, s[:200]))
+            hdr, field, rec = row_step(stmts[i:j + 1], 'idx')
+            out.append(('FsRow [%s] %s %s' % ('; '.join(hdr), coq_str(field), coq_str(rec)), gate))
+            i = j + 1
+        return out
+
+    steps = steps_of(fw_stmts(loop[1], where), None)
+
+    L = []
+    L.append('(* GENERATED by tools/rust2coq.py from %s (impl Data, impl PortData, impl Frame: the hand-written head of the' % FW_RS)
+    L.append('   file), the struct declarations of %s and the Event enum of src/io/slippi/de.rs -- do not edit. *)' % FW_DECL)
+    L.append('From Coq Require Import NArith List String.')
+    L.append('From Peppi Require Import Gen.Funs.')
+    L.append('Import ListNotations.')
+    L.append('Local Open Scope string_scope.')
+    L.append('')
+    L.append('(* the writes of an event header, before the record:')
+    L.append('   HCode E       w.write_u8(Event::E as u8)?')
+    L.append('   HFrameIdI32   w.write_i32::<BE>(frame_id)?')
+    L.append('   HPortU8       w.write_u8(port.port as u8)?')
+    L.append('   HFollowerU8   w.write_u8(match port.follower { true => 1, _ => 0 })? *)')
+    L.append('Inductive hfield := HCode (event : string) | HFrameIdI32 | HPortU8 | HFollowerU8.')
+    L.append('')
+    L.append('(* Data::<method>: `if self.validity.as_ref().map_or(true, |v| v.get_bit(idx)) { <header>; self.<field>.write(w, version, idx)? }`')
+    L.append('   (method, header, field, record type of the field) *)')
+    L.append('Definition data_write_tbl : list (string * list hfield * string * string) :=\n  [%s].' % ';\n   '.join(
+        '(%s, [%s], %s, %s)' % (coq_str(m_), '; '.join(h), coq_str(f), coq_str(r)) for (m_, h, f, r) in data_rows))
+    L.append('(* PortData::<method>: the leader, then the follower if present; (who, Data method called, `follower:` flag passed,')
+    L.append('   guarded by an extra `f.validity..get_bit(idx)` test around the call) *)')
+    L.append('Definition portdata_write_tbl : list (string * list (string * string * bool * bool)) :=\n  [%s].' % ';\n   '.join(
+        '(%s, [%s])' % (coq_str(m_), '; '.join('(%s, %s, %s, %s)' % (coq_str(w_), coq_str(c), f, g) for (w_, c, f, g) in rows)) for (m_, rows) in port_rows))
+    L.append('(* Frame::write, per frame `for (idx, &frame_id) in self.id.values().iter().enumerate()`:')
+    L.append('   FsRow header field record             <header>; self.<field>.as_ref().unwrap().write(w, version, idx)?')
+    L.append('   FsPorts method                        for port in &self.ports { port.<method>(w, version, idx, frame_id)?; }')
+    L.append('   FsItems header offsets field record   let offset = self.<offsets>.as_ref().unwrap();')
+    L.append('                                         for item_idx in (offset[idx] as usize)..(offset[idx + 1] as usize)')
+    L.append('                                           { <header>; self.<field>.as_ref().unwrap().write(w, version, item_idx)? }')
+    L.append('   each with the enclosing `if version.gte(M, m)` (None: unconditional), in source order *)')
+    L.append('Inductive fstep :=')
+    L.append('| FsRow (header : list hfield) (field record : string)')
+    L.append('| FsPorts (method : string)')
+    L.append('| FsItems (header : list hfield) (offsets field record : string).')
+    L.append('Definition frame_write_steps : list (fstep * option (N * N)) :=\n  [%s].' % ';\n   '.join(
+        '(%s, %s)' % (s, 'None' if g is None else 'Some (%d, %d)%%N' % g) for (s, g) in steps))
+    L.append('(* de::Event: variant name -> code (the Event_* constants of Gen/Funs.v) *)')
+    L.append('Definition frame_event_codes : list (string * N) :=\n  [%s].' % '; '.join('(%s, Event_%s)' % (coq_str(n), n) for n in events))
+    return '\n'.join(L) + '\n'
+
+
+# ------------------------------------------------------------------------------------------------
+# (f) message-splitter front end: handle_splitter_event (src/io/slippi/de.rs) and gecko_codes (src/io/slippi/ser.rs)
+
+def strict_match(stmts, pats, where):
+    """every statement must fullmatch the pattern at the same position; -> list of match objects"""
+    if len(stmts) != len(pats):
+        raise TranslateError('%s: expected %d statements, found %d: %s' % (where, len(pats), len(stmts), ' ; '.join(stmts)[:300]))
+    out = []
+    for i, (s, (what, p)) in enumerate(zip(stmts, pats)):
+        m = re.fullmatch(p, s)
+        if not m:
+            raise TranslateError('%s: statement %d is not %s: %s' % (where, i + 1, what, s[:300]))
+        out.append(m)
+    return out
+
+
+def gen_splitter():
+    INT = r'(\d[\d_]*)'
+    # ---- reader
+    where = '%s fn handle_splitter_event' % DE_RS
+    all_toks = tokenize(read(DE_RS), DE_RS)
+    if find_seq(all_toks, ['type', 'BE', '=', 'byteorder', '::', 'BigEndian', ';']) < 0:
+        raise TranslateError('%s: `type BE = byteorder::BigEndian;` not found' % DE_RS)
+    if parse_struct_decl(all_toks, 'SplitAccumulator', DE_RS) != [('raw', 'Vec < u8 >'), ('actual_size', 'u32')]:
+        raise TranslateError('%s: struct SplitAccumulator is not { raw: Vec<u8>, actual_size: u32 }' % DE_RS)
+    params, ret, body = find_fn(DE_RS, None, 'handle_splitter_event')
+    if sjp(params) != 'buf : & [ u8 ] , accumulator : & mut SplitAccumulator' or sj(ret) != '-> Result < Option < u8 > >':
+        raise TranslateError('%s: unexpected signature' % where)
+    sts = [sj(x) for x in fw_stmts(body, where)]
+    err = r'\{ return Err \( err ! \( .* \) \)(?: ;)? \}'
+    m = strict_match(sts, [
+        ('`if buf.len() != N { return Err(..) }`', r'if buf \. len \( \) != %s %s' % (INT, err)),
+        ('`let actual_size = (&buf[A..B]).read_u16::<BE>()?`', r'let actual_size = \( & buf \[ %s \.\. %s \] \) \. read_u16 :: < BE > \( \) \?' % (INT, INT)),
+        ('`if actual_size > N { return Err(..) }`', r'if actual_size > %s %s' % (INT, err)),
+        ('`let wrapped_event = buf[N]`', r'let wrapped_event = buf \[ %s \]' % INT),
+        ('`let is_final = buf[N] != 0`', r'let is_final = buf \[ %s \] != 0' % INT),
+        ('`accumulator.raw.extend_from_slice(&buf[A..B])`', r'accumulator \. raw \. extend_from_slice \( & buf \[ %s \.\. %s \] \)' % (INT, INT)),
+        ('`accumulator.actual_size += actual_size as u32`', r'accumulator \. actual_size \+= actual_size as u32'),
+        ('`Ok(match is_final { true => Some(wrapped_event), _ => None })`', r'Ok \( match is_final \{ true => Some \( wrapped_event \) , _ => None \} \)'),
+    ], where)
+    blen = num(m[0].group(1))
+    sa, sb_ = num(m[1].group(1)), num(m[1].group(2))
+    if sb_ - sa != 2:
+        raise TranslateError('%s: read_u16 from a %d-byte slice buf[%d..%d]' % (where, sb_ - sa, sa, sb_))
+    mx = num(m[2].group(1))
+    wr, fi = num(m[3].group(1)), num(m[4].group(1))
+    da, db = num(m[5].group(1)), num(m[5].group(2))
+    if not (da <= db):
+        raise TranslateError('%s: empty data slice' % where)
+    # the caller: the splitter is taken iff code == Event::MessageSplitter, and on completion code/buf are replaced
+    cparams, cret, cbody = find_fn(DE_RS, None, 'parse_event')
+    want = ('if code == Event :: MessageSplitter as u8 { if let Some ( wrapped_event ) = handle_splitter_event ( & buf , & mut state . split_accumulator ) ? '
+            '{ code = wrapped_event ; buf . clear ( ) ; buf . append ( & mut state . split_accumulator . raw ) ; } }')
+    if want not in sj(cbody):
+        raise TranslateError('%s fn parse_event: the call of handle_splitter_event is not the expected `if code == Event::MessageSplitter as u8 { if let '
+                             'Some(wrapped_event) = handle_splitter_event(&buf, &mut state.split_accumulator)? { code = wrapped_event; buf.clear(); '
+                             'buf.append(&mut state.split_accumulator.raw); } }`' % DE_RS)
+    if tv(cbody).count('handle_splitter_event') != 1 or tv(all_toks).count('handle_splitter_event') != 2:
+        raise TranslateError('%s: handle_splitter_event is used in more than one place' % DE_RS)
+
+    # ---- writer
+    where = '%s fn gecko_codes' % SLP_SER
+    stoks = tokenize(read(SLP_SER), SLP_SER)
+    if find_seq(stoks, ['type', 'BE', '=', 'byteorder', '::', 'BigEndian', ';']) < 0:
+        raise TranslateError('%s: `type BE = byteorder::BigEndian;` not found' % SLP_SER)
+    events = dict(enum_codes(DE_RS, 'Event'))
+    params, ret, body = find_fn(SLP_SER, None, 'gecko_codes')
+    if sjp(params) != 'w : & mut W , codes : & GeckoCodes':
+        raise TranslateError('%s: unexpected parameters: %s' % (where, sjp(params)))
+    sts = fw_stmts(body, where)
+    if len(sts) != 4 or sj(sts[0]) != 'let mut pos = 0' or sj(sts[1]) != 'let actual_size = codes . actual_size as usize' or sj(sts[3]) != 'Ok ( ( ) )' \
+            or tv(sts[2][:1]) != ['while']:
+        raise TranslateError('%s: not `let mut pos = 0; let actual_size = codes.actual_size as usize; while .. { .. } Ok(())`: %s' % (where, sj(body)[:300]))
+    sv = StmtView(sts[2], where)
+    j = sv.first_top(1, len(sts[2]), '{')
+    if j < 0 or match_close(sts[2], j) != len(sts[2]) - 1 or sj(sts[2][1:j]) != 'pos < actual_size':
+        raise TranslateError('%s: the loop is not `while pos < actual_size { .. }`' % where)
+    steps = []
+    for st in fw_stmts(sts[2][j + 1:-1], where):
+        s = sj(st)
+        mm = re.fullmatch(r'w \. write_u8 \( Event :: (\w+) as u8 \) \?', s)
+        if mm:
+            if mm.group(1) not in events:
+                raise TranslateError('%s: Event::%s is not a variant of de::Event' % (where, mm.group(1)))
+            steps.append('GwCode %s' % coq_str(mm.group(1)))
+            continue
+        mm = re.fullmatch(r'w \. write_all \( & codes \. bytes \[ pos \.\. pos \+ %s \] \) \?' % INT, s)
+        if mm:
+            steps.append('GwBlock %d' % num(mm.group(1)))
+            continue
+        mm = re.fullmatch(r'w \. write_u16 :: < BE > \( (?:std :: cmp :: )?min \( %s , actual_size - pos \) as u16 \) \?' % INT, s)
+        if mm:
+            steps.append('GwSizeU16Min %d' % num(mm.group(1)))
+            continue
+        mm = re.fullmatch(r'pos \+= %s' % INT, s)
+        if mm:
+            steps.append('GwAdvance %d' % num(mm.group(1)))
+            continue
+        if s == 'w . write_u8 ( u8 :: from ( pos >= actual_size ) ) ?':
+            steps.append('GwFinalFlag')
+            continue
+        raise TranslateError('%s: unrecognised statement in the loop: %s' % (where, s[:300]))
+    if sum(1 for x in steps if x.startswith('GwAdvance')) != 1:
+        raise TranslateError('%s: expected exactly one `pos += N` in the loop' % where)
+
+    L = []
+    L.append('(* GENERATED by tools/rust2coq.py from %s (fn handle_splitter_event, its call in fn parse_event) and' % DE_RS)
+    L.append('   %s (fn gecko_codes) -- do not edit. *)' % SLP_SER)
+    L.append('From Coq Require Import NArith List String.')
+    L.append('From Peppi Require Import Gen.Funs.')
+    L.append('Import ListNotations.')
+    L.append('Local Open Scope string_scope.')
+    L.append('')
+    L.append('(* handle_splitter_event(buf, accumulator), in statement order *)')
+    L.append('Definition splitter_block_len : nat := %d.            (* if buf.len() != N { return Err } *)' % blen)
+    L.append('Definition splitter_size_at : nat * nat := (%d, %d).    (* actual_size = (&buf[A..B]).read_u16::<BE>()?: (A, B - A) *)' % (sa, sb_ - sa))
+    L.append('Definition splitter_max_size : N := %d%%N.            (* if actual_size > N { return Err } *)' % mx)
+    L.append('Definition splitter_wrapped_at : nat := %d.           (* wrapped_event = buf[N] *)' % wr)
+    L.append('Definition splitter_final_at : nat := %d.             (* is_final = buf[N] != 0 *)' % fi)
+    L.append('Definition splitter_data : nat * nat := (%d, %d).       (* accumulator.raw.extend_from_slice(&buf[A..B]): (A, B - A) *)' % (da, db - da))
+    L.append('')
+    L.append('(* gecko_codes(w, codes): the body of `while pos < actual_size { .. }`, in statement order:')
+    L.append('   GwCode E          w.write_u8(Event::E as u8)?')
+    L.append('   GwBlock n         w.write_all(&codes.bytes[pos..pos + n])?')
+    L.append('   GwSizeU16Min n    w.write_u16::<BE>(min(n, actual_size - pos) as u16)?')
+    L.append('   GwAdvance n       pos += n')
+    L.append('   GwFinalFlag       w.write_u8(u8::from(pos >= actual_size))? *)')
+    L.append('Inductive gwrite := GwCode (event : string) | GwBlock (len : nat) | GwSizeU16Min (cap : nat) | GwAdvance (n : nat) | GwFinalFlag.')
+    L.append('Definition gecko_write_steps : list gwrite :=\n  [%s].' % '; '.join(steps))
+    L.append('(* de::Event: variant name -> code (the Event_* constants of Gen/Funs.v) *)')
+    L.append('Definition splitter_event_codes : list (string * N) :=\n  [%s].' % '; '.join('(%s, Event_%s)' % (coq_str(n), n) for n in events))
+    return '\n'.join(L) + '\n'
+
+
+# ------------------------------------------------------------------------------------------------
+# (g) read()-tail front end: the skip-frames arithmetic, the event-loop condition, the final frame_close gate, the
+#     duplicate-Game-End test and the metadata dispatch of src/io/slippi/de.rs fn read / fn parse_metadata
+
+LOG_MACRO = r'(?:info|debug|warn|trace) ! \( .* \)'
+
+
+def expr_to_gallina(text, subst, env, where, coq_name, binders, ret_ty):
+    """a Rust expression (token-joined text) -> `Definition coq_name binders : ret_ty := ...` through the expression
+    front end (P/G); `subst`: (token-joined Rust sub-expression, identifier) replaced first, longest first"""
+    for old, new in sorted(subst, key=lambda x: -len(x[0])):
+        text = text.replace(old, new)
+    p = P(tokenize(text, where), where)
+    ast = p.expr()
+    if not p.done():
+        raise TranslateError('%s: trailing tokens in expression: %s' % (where, text[:200]))
+    g = G(env, where)
+    return 'Definition %s %s : %s := %s.' % (coq_name, ' '.join('(%s : N)' % b for b in binders), ret_ty, g.e(ast))
+
+
+def not_logs(stmts):
+    return [s for s in stmts if not re.fullmatch(LOG_MACRO, s)]
+
+
+def gen_read_tail():
+    where = '%s fn read' % DE_RS
+    params, ret, body = find_fn(DE_RS, None, 'read')
+    if sjp(params) != 'r : R , opts : Option < & Opts >':
+        raise TranslateError('%s: unexpected parameters: %s' % (where, sjp(params)))
+    raw = fw_stmts(body, where)
+    idx = [i for i, x in enumerate(raw) if not re.fullmatch(LOG_MACRO, sj(x))]
+    sts = [raw[i] for i in idx]
+    txt = [sj(x) for x in sts]
+    strict_match(txt, [
+        ('`let hash = opts.map_or(false, |o| o.compute_hash)`', r'let hash = opts \. map_or \( false , \| o \| o \. compute_hash \)'),
+        ('`let mut r = HashingReader::new(r, hash)`', r'let mut r = HashingReader :: new \( r , hash \)'),
+        ('`let raw_len = parse_header(&mut r, opts)? as usize`', r'let raw_len = parse_header \( & mut r , opts \) \? as usize'),
+        ('`let mut state = parse_start(&mut r, opts)?`', r'let mut state = parse_start \( & mut r , opts \) \?'),
+        ('`if opts.map_or(false, |o| o.skip_frames) { .. }`', r'if opts \. map_or \( false , \| o \| o \. skip_frames \) \{ .* \}'),
+        ('`while .. { .. }`', r'while .*'),
+        ('`if state.game.start.slippi.version.lt(M, m) { state.frame_close(); }`',
+         r'if state \. game \. start \. slippi \. version \. lt \( \d+ , \d+ \) \{ state \. frame_close \( \) ; \}'),
+        ('`if state.bytes_read < raw_len { .. } else if .. { warn!(..) }`', r'if .*'),
+        ('`match r.read_u8()? { .. }`', r'match r \. read_u8 \( \) \? \{ .* \}'),
+        ('`state.game.hash = r.into_digest()`', r'state \. game \. hash = r \. into_digest \( \)'),
+        ('`Ok(Game::from(state.game))`', r'Ok \( Game :: from \( state \. game \) \)'),
+    ], where)
+    S_BR = ('state . bytes_read', 'bytes_read')
+    D = []
+
+    # ---- the skip block
+    w2 = where + ' (skip_frames block)'
+    blk = fw_if_block(sts[4], w2)
+    inner = not_logs([sj(x) for x in fw_stmts(blk[1], w2)])
+    m = strict_match(inner, [
+        ('`let end_offset = ..`', r'let end_offset = (.*)'),
+        ('`if .. { return Err(err!(..)); }`', r'if (.*) \{ return Err \( err ! \( .* \) \)(?: ;)? \}'),
+        ('`let skip = ..`', r'let skip = (.*)'),
+        ('`if hash { io::copy(take(skip)) } else { r.seek(Current(skip)) }`',
+         r'if hash \{ io :: copy \( & mut r \. by_ref \( \) \. take \( skip as u64 \) , & mut io :: sink \( \) \) \? ; \} '
+         r'else \{ r \. seek \( SeekFrom :: Current \( skip \. try_into \( \) \. map_err \( invalid_data \) \? \) \) \? ; \}'),
+        ('`state.bytes_read += skip`', r'state \. bytes_read \+= skip'),
+    ], w2)
+    mm = re.search(r'state \. payload_sizes \[ Event :: (\w+) as usize \] \. unwrap \( \) \. get \( \)', m[0].group(1))
+    if not mm or mm.group(1) not in dict(enum_codes(DE_RS, 'Event')):
+        raise TranslateError('%s: end_offset does not use state.payload_sizes[Event::X as usize].unwrap().get(): %s' % (w2, m[0].group(1)[:200]))
+    D.append('(* skip_frames: let end_offset = %s *)' % m[0].group(1).replace('*)', '* )'))
+    D.append('Definition skip_size_event : N := Event_%s.' % mm.group(1))
+    D.append(expr_to_gallina(m[0].group(1), [(mm.group(0), 'payload_size')], {'payload_size': 'payload_size'}, w2, 'skip_end_offset', ['payload_size'], 'N'))
+    D.append('(* if %s { return Err(..) } *)' % m[1].group(1))
+    env3 = {'raw_len': 'raw_len', 'bytes_read': 'bytes_read', 'end_offset': 'end_offset'}
+    D.append(expr_to_gallina(m[1].group(1), [S_BR], env3, w2, 'skip_refused', ['raw_len', 'bytes_read', 'end_offset'], 'bool'))
+    D.append('(* let skip = %s *)' % m[2].group(1))
+    D.append(expr_to_gallina(m[2].group(1), [S_BR], env3, w2, 'skip_amount', ['raw_len', 'bytes_read', 'end_offset'], 'N'))
+
+    # ---- the event loop
+    w2 = where + ' (event loop)'
+    sv = StmtView(sts[5], w2)
+    j = sv.first_top(1, len(sts[5]), '{')
+    if j < 0 or match_close(sts[5], j) != len(sts[5]) - 1:
+        raise TranslateError('%s: unrecognised `while`' % w2)
+    cond = sj(sts[5][1:j])
+    lb = [sj(x) for x in fw_stmts(sts[5][j + 1:-1], w2)]
+    mm = re.fullmatch(r'if parse_event \( r \. by_ref \( \) , & mut state , opts \) \? == Event :: (\w+) as u8 \{ break ; \}', lb[0]) if len(lb) == 1 else None
+    if not mm:
+        raise TranslateError('%s: the body is not `if parse_event(r.by_ref(), &mut state, opts)? == Event::X as u8 { break; }`: %s' % (w2, ' ; '.join(lb)[:200]))
+    D.append('(* while %s { if parse_event(..)? == Event::%s as u8 { break; } } *)' % (cond, mm.group(1)))
+    D.append(expr_to_gallina(cond, [S_BR], {'raw_len': 'raw_len', 'bytes_read': 'bytes_read'}, w2, 'loop_continues', ['raw_len', 'bytes_read'], 'bool'))
+    D.append('Definition loop_break_event : N := Event_%s.' % mm.group(1))
+
+    # ---- the final frame_close
+    mm = re.fullmatch(r'if state \. game \. start \. slippi \. version \. lt \( (\d+) , (\d+) \) \{ state \. frame_close \( \) ; \}', txt[6])
+    D.append('(* if state.game.start.slippi.version.lt(M, m) { state.frame_close(); } *)')
+    D.append('Definition final_close_lt : N * N := (%d, %d).' % (int(mm.group(1)), int(mm.group(2))))
+
+    # ---- the duplicate Game End
+    w2 = where + ' (duplicate Game End)'
+    sv = StmtView(sts[7], w2)
+    j = sv.first_top(1, len(sts[7]), '{')
+    c = match_close(sts[7], j)
+    cond = sj(sts[7][1:j])
+    rest = sj(sts[7][c + 1:])
+    if not re.fullmatch(r'else if raw_len > 0 && state \. bytes_read > raw_len \{ %s(?: ;)? \}' % LOG_MACRO, rest):
+        raise TranslateError('%s: the else branch is not `else if raw_len > 0 && state.bytes_read > raw_len { warn!(..) }`: %s' % (w2, rest[:200]))
+    inner = not_logs([sj(x) for x in fw_stmts(sts[7][j + 1:c], w2)])
+    m = strict_match(inner, [
+        ('`let len = ..`', r'let len = (.*)'),
+        ('`let mut buf = vec![0; len]`', r'let mut buf = vec ! \[ 0 ; len \]'),
+        ('`r.read_exact(&mut buf)?`', r'r \. read_exact \( & mut buf \) \?'),
+        ('`if .. { state.game.quirks.get_or_insert(Quirks::default()).double_game_end = true; } else { warn!(..) }`',
+         r'if (.*) \{ (?:%s ; )?state \. game \. quirks \. get_or_insert \( Quirks :: default \( \) \) \. double_game_end = true ; \} else \{ %s(?: ;)? \}'
+         % (LOG_MACRO, LOG_MACRO)),
+    ], w2)
+    env2 = {'raw_len': 'raw_len', 'bytes_read': 'bytes_read'}
+    D.append('(* if %s { let len = %s; .. read len bytes into buf .. *)' % (cond, m[0].group(1)))
+    D.append(expr_to_gallina(cond, [S_BR], env2, w2, 'dup_present', ['raw_len', 'bytes_read'], 'bool'))
+    D.append(expr_to_gallina(m[0].group(1), [S_BR], env2, w2, 'dup_len', ['raw_len', 'bytes_read'], 'N'))
+    dc = m[3].group(1)
+    D.append('(*   if %s { quirks.double_game_end = true } *)' % dc)
+    mm = re.search(r'Event :: (\w+) as u8', dc)
+    if not mm:
+        raise TranslateError('%s: the test does not compare with an Event code: %s' % (w2, dc[:200]))
+    D.append(expr_to_gallina(dc, [('game :: End :: size ( state . game . start . slippi . version )', 'end_size'), ('buf [ 0 ]', 'buf0'),
+                                  (mm.group(0), 'event_code_')],
+                             {'len': 'len', 'end_size': 'end_size', 'buf0': 'buf0', 'event_code_': 'Event_%s' % mm.group(1)}, w2,
+                             'dup_is_game_end', ['len', 'end_size', 'buf0'], 'bool'))
+
+    # ---- the metadata dispatch
+    w2 = where + ' (metadata dispatch)'
+    sv = StmtView(sts[8], w2)
+    j = sv.first_top(1, len(sts[8]), '{')
+    arms = sj(sts[8][j + 1:-1])
+    BYTE = r'(0x[0-9a-fA-F]{1,2}|\d+)'
+    mm = re.fullmatch(r'%s => \{ parse_metadata \( r \. by_ref \( \) , & mut state , opts \) \? ; expect_bytes \( & mut r , & \[ ([^\]]*) \] \) \? ; \} ,? ?'
+                      r'%s => \{ \} ,? ?(\w+) => return Err \( err ! \( .* \) \) ,?' % (BYTE, BYTE), arms)
+    if not mm:
+        raise TranslateError('%s: the arms are not `B1 => { parse_metadata(r.by_ref(), &mut state, opts)?; expect_bytes(&mut r, &[..])?; } '
+                             'B2 => {} x => return Err(..)`: %s' % (w2, arms[:300]))
+    close = [num(x) for x in mm.group(2).replace(' ', '').split(',') if x]
+    D.append('(* match r.read_u8()? { B1 => { parse_metadata(..)?; expect_bytes(&mut r, &[close..])?; } B2 => {} x => return Err(..) } *)')
+    D.append('Definition meta_present_byte : N := %d.' % num(mm.group(1)))
+    D.append('Definition meta_close_bytes : list N := [%s].' % '; '.join(map(str, close)))
+    D.append('Definition meta_absent_byte : N := %d.' % num(mm.group(3)))
+
+    # ---- parse_metadata
+    w2 = '%s fn parse_metadata' % DE_RS
+    params, ret, body = find_fn(DE_RS, None, 'parse_metadata')
+    inner = not_logs([sj(x) for x in fw_stmts(body, w2)])
+    m = strict_match(inner, [
+        ('`expect_bytes(&mut r, &[..])?`', r'expect_bytes \( & mut r , & \[ ([^\]]*) \] \) \?'),
+        ('`let metadata = ubjson::read_map(&mut r)?`', r'let metadata = ubjson :: read_map \( & mut r \) \?'),
+        ('`state.game.metadata = Some(metadata)`', r'state \. game \. metadata = Some \( metadata \)'),
+        ('`Ok(())`', r'Ok \( \( \) \)'),
+    ], w2)
+    key = [num(x) for x in m[0].group(1).replace(' ', '').split(',') if x]
+    D.append('(* parse_metadata: expect_bytes(&mut r, &[..])?; ubjson::read_map(&mut r)? *)')
+    D.append('Definition meta_key_bytes : list N := [%s].' % '; '.join(map(str, key)))
+
+    L = []
+    L.append('(* GENERATED by tools/rust2coq.py from %s (fn read, fn parse_metadata) -- do not edit.' % DE_RS)
+    L.append('   The expressions are translated by the expression front end (every integer an N, comparisons boolean). *)')
+    L.append('From Coq Require Import NArith Bool List.')
+    L.append('From Peppi Require Import Gen.Funs.')
+    L.append('Import ListNotations.')
+    L.append('Local Open Scope N_scope.')
+    L.append('')
+    L.extend(D)
+    return '\n'.join(L) + '\n'
+
+
+# ------------------------------------------------------------------------------------------------
+# (h) UBJSON marker front end: src/io/ubjson/de.rs (to_utf8, to_val, to_key, read_map, read_map_at) and
+#     src/io/ubjson/ser.rs (write_utf8, write_map)
+
+UBJ_DE = 'src/io/ubjson/de.rs'
+UBJ_SER = 'src/io/ubjson/ser.rs'
+UBJ_TO_UTF8 = ('let length = r . read_u8 ( ) ? ; let mut buf = vec ! [ 0 ; length as usize ] ; r . read_exact ( & mut buf ) ? ; '
+               'Ok ( String :: from_utf8 ( buf ) ? )')
+UBJ_READ_MAP_AT = ('if depth > MAX_DEPTH { return Err ( err ! ( "UBJSON maps nested too deeply (max {})" , MAX_DEPTH ) ) ; } '
+                   'let mut m = Map :: new ( ) ; '
+                   'while match to_key ( r ) ? { Some ( k ) => { m . insert ( k , to_val ( r , depth ) ? ) ; true } None => false } { } Ok ( m )')
+
+
+def match_arms(toks, where):
+    """arms of a match body -> list of (pattern text, body text); a block body loses its braces"""
+    sv = StmtView(toks, where)
+    out = []
+    i = 0
+    while i < len(toks):
+        p = sv.first_top(i, len(toks), '=>')
+        if p < 0:
+            raise TranslateError('%s: unrecognised match arm: %s' % (where, sj(toks[i:])[:200]))
+        if sv.is_p(p + 1, '{'):
+            e = match_close(toks, p + 1) + 1
+            body = toks[p + 2:e - 1]
+        else:
+            e = sv.first_top(p + 1, len(toks), ',')
+            e = len(toks) if e < 0 else e
+            body = toks[p + 1:e]
+        out.append((sj(toks[i:p]), sj(body)))
+        i = e + 1 if sv.is_p(e, ',') else e
+    return out
+
+
+def byte_lit(s, where):
+    if not re.fullmatch(r'0x[0-9a-fA-F]{1,2}|\d{1,3}', s) or num(s) > 255:
+        raise TranslateError('%s: match pattern is not a byte literal: %s' % (where, s[:100]))
+    return num(s)
+
+
+def match_on_read_u8(body, where):
+    """`match r.read_u8()? { arms }` as the whole body -> arms"""
+    v = tv(body)
+    if v[:8] != ['match', 'r', '.', 'read_u8', '(', ')', '?', '{'] or match_close(body, 7) != len(body) - 1:
+        raise TranslateError('%s: the body is not `match r.read_u8()? { .. }`: %s' % (where, sj(body)[:200]))
+    return match_arms(body[8:-1], where)
+
+
+def fmt_char(lit, where):
+    """the single byte a `write!(w, "<lit>")` emits"""
+    s = lit[1:-1]
+    if s == '{{':
+        return ord('{')
+    if s == '}}':
+        return ord('}')
+    if len(s) == 1 and s not in '{}\\' and ord(s) < 128:
+        return ord(s)
+    raise TranslateError('%s: write!(w, %s) is not a one-byte marker' % (where, lit))
+
+
+def gen_ubjson_markers():
+    ERR = r'Err \( err ! \( .* \) \)'
+    # ---- reader
+    det = tokenize(read(UBJ_DE), UBJ_DE)
+    if find_seq(det, ['use', 'byteorder', '::', '{', 'BigEndian', ',', 'ReadBytesExt', '}', ';']) < 0:
+        raise TranslateError('%s: `use byteorder::{BigEndian, ReadBytesExt};` not found' % UBJ_DE)
+    p_, r_, b_ = find_fn(UBJ_DE, None, 'to_utf8')
+    if sj(b_) != UBJ_TO_UTF8:
+        raise TranslateError('%s fn to_utf8: not `u8 length, bytes, String::from_utf8`: %s' % (UBJ_DE, sj(b_)[:300]))
+    p_, r_, b_ = find_fn(UBJ_DE, None, 'read_map')
+    if sj(b_) != 'read_map_at ( r , 1 )':
+        raise TranslateError('%s fn read_map: not `read_map_at(r, 1)`: %s' % (UBJ_DE, sj(b_)[:200]))
+    p_, r_, b_ = find_fn(UBJ_DE, None, 'read_map_at')
+    if sj(b_) != UBJ_READ_MAP_AT:
+        raise TranslateError('%s fn read_map_at: not the expected depth check and key/value loop: %s' % (UBJ_DE, sj(b_)[:400]))
+    where = '%s fn to_val' % UBJ_DE
+    p_, r_, b_ = find_fn(UBJ_DE, None, 'to_val')
+    arms = match_on_read_u8(b_, where)
+    if not arms or not re.fullmatch(r'\w+', arms[-1][0]) or not re.fullmatch(ERR, arms[-1][1]):
+        raise TranslateError('%s: the last arm is not `c => Err(err!(..))`' % where)
+    val_arms = []
+    str_len = None
+    int_width = None
+    for pat, body in arms[:-1]:
+        code = byte_lit(pat, where)
+        m = re.fullmatch(r'match r \. read_u8 \( \) \? \{ (\S+) => Ok \( Value :: String \( to_utf8 \( r \) \? \) \) , \w+ => %s \}' % ERR, body)
+        if m:
+            str_len = byte_lit(m.group(1), where)
+            val_arms.append((code, 'str'))
+            continue
+        m = re.fullmatch(r'Ok \( Value :: Number \( serde_json :: Number :: from \( r \. read_(i32) :: < BigEndian > \( \) \? \) \) \)', body)
+        if m:
+            int_width = 4
+            val_arms.append((code, 'i32'))
+            continue
+        if body == 'Ok ( Value :: Object ( read_map_at ( r , depth + 1 ) ? ) )':
+            val_arms.append((code, 'map'))
+            continue
+        raise TranslateError('%s: unrecognised arm %s => %s' % (where, pat, body[:200]))
+    if sorted(k for _, k in val_arms) != ['i32', 'map', 'str'] or len(set(c for c, _ in val_arms)) != 3:
+        raise TranslateError('%s: expected exactly one arm each for str, i32, map with distinct bytes, found %s' % (where, val_arms))
+    where = '%s fn to_key' % UBJ_DE
+    p_, r_, b_ = find_fn(UBJ_DE, None, 'to_key')
+    arms = match_on_read_u8(b_, where)
+    if not arms or not re.fullmatch(r'\w+', arms[-1][0]) or not re.fullmatch(ERR, arms[-1][1]):
+        raise TranslateError('%s: the last arm is not `c => Err(err!(..))`' % where)
+    key_arms = []
+    for pat, body in arms[:-1]:
+        code = byte_lit(pat, where)
+        if body == 'Ok ( Some ( to_utf8 ( r ) ? ) )':
+            key_arms.append((code, 'key'))
+        elif body == 'Ok ( None )':
+            key_arms.append((code, 'end'))
+        else:
+            raise TranslateError('%s: unrecognised arm %s => %s' % (where, pat, body[:200]))
+    if sorted(k for _, k in key_arms) != ['end', 'key'] or len(set(c for c, _ in key_arms)) != 2:
+        raise TranslateError('%s: expected exactly one arm each for key, end with distinct bytes, found %s' % (where, key_arms))
+
+    # ---- writer
+    sert = tokenize(read(UBJ_SER), UBJ_SER)
+    if find_seq(sert, ['use', 'byteorder', '::', '{', 'BigEndian', ',', 'WriteBytesExt', '}', ';']) < 0:
+        raise TranslateError('%s: `use byteorder::{BigEndian, WriteBytesExt};` not found' % UBJ_SER)
+    where = '%s fn write_utf8' % UBJ_SER
+    p_, r_, b_ = find_fn(UBJ_SER, None, 'write_utf8')
+    m = strict_match([sj(x) for x in fw_stmts(b_, where)], [
+        ('`write!(w, "<marker>")?`', r'write ! \( w , ("[^"]*") \) \?'),
+        ('`w.write_u8(s.len().try_into().unwrap())?`', r'w \. write_u8 \( s \. len \( \) \. try_into \( \) \. unwrap \( \) \) \?'),
+        ('`write!(w, "{}", s)?`', r'write ! \( w , "\{\}" , s \) \?'),
+        ('`Ok(())`', r'Ok \( \( \) \)'),
+    ], where)
+    wr_utf8 = fmt_char(m[0].group(1), where)
+    where = '%s fn write_map' % UBJ_SER
+    p_, r_, b_ = find_fn(UBJ_SER, None, 'write_map')
+    sts = fw_stmts(b_, where)
+    loop = fw_for_block(sts[0], where) if sts else None
+    if len(sts) != 2 or loop is None or loop[0] != '( k , v ) in map' or sj(sts[1]) != 'Ok ( ( ) )':
+        raise TranslateError('%s: not `for (k, v) in map { .. } Ok(())`' % where)
+    inner = fw_stmts(loop[1], where)
+    if len(inner) != 2 or sj(inner[0]) != 'write_utf8 ( w , k ) ?' or tv(inner[1][:3]) != ['match', 'v', '{'] or match_close(inner[1], 2) != len(inner[1]) - 1:
+        raise TranslateError('%s: the loop body is not `write_utf8(w, k)?; match v { .. }`' % where)
+    arms = match_arms(inner[1][3:-1], where)
+    if not arms or arms[-1] != ('_', 'unimplemented ! ( )'):
+        raise TranslateError('%s: the last arm is not `_ => unimplemented!()`' % where)
+    W = r'write ! \( w , ("[^"]*") \) \? ;'
+    wr_arms = []
+    for pat, body in arms[:-1]:
+        if pat == 'Value :: String ( s )':
+            m = re.fullmatch(W + r' write_utf8 \( w , s \) \? ;', body)
+            if m:
+                wr_arms.append(('String', [fmt_char(m.group(1), where)], []))
+                continue
+        if pat == 'Value :: Number ( n )':
+            m = re.fullmatch(W + r' w \. write_i32 :: < BigEndian > \( n \. as_i64 \( \) \. unwrap \( \) \. try_into \( \) \. unwrap \( \) \) \? ;', body)
+            if m:
+                wr_arms.append(('Number', [fmt_char(m.group(1), where)], []))
+                continue
+        if pat == 'Value :: Object ( o )':
+            m = re.fullmatch(W + r' write_map \( w , o \) \? ; ' + W, body)
+            if m:
+                wr_arms.append(('Object', [fmt_char(m.group(1), where)], [fmt_char(m.group(2), where)]))
+                continue
+        raise TranslateError('%s: unrecognised arm %s => { %s }' % (where, pat, body[:300]))
+    if sorted(a[0] for a in wr_arms) != ['Number', 'Object', 'String']:
+        raise TranslateError('%s: expected exactly the arms String, Number, Object, found %s' % (where, [a[0] for a in wr_arms]))
+
+    L = []
+    L.append('(* GENERATED by tools/rust2coq.py from %s (to_utf8, to_val, to_key, read_map, read_map_at) and' % UBJ_DE)
+    L.append('   %s (write_utf8, write_map) -- do not edit. *)' % UBJ_SER)
+    L.append('From Coq Require Import NArith List String.')
+    L.append('Import ListNotations.')
+    L.append('Local Open Scope string_scope.')
+    L.append('')
+    L.append('(* to_val: `match r.read_u8()? { B => .. }`: (byte, what follows): "str" = a second byte (below) then to_utf8;')
+    L.append('   "i32" = r.read_i32::<BigEndian>(); "map" = read_map_at(r, depth + 1); any other byte is an error *)')
+    L.append('Definition ubj_val_arms : list (N * string) := [%s].' % '; '.join('(%d%%N, %s)' % (c, coq_str(k)) for c, k in val_arms))
+    L.append('Definition ubj_str_len_marker : N := %d%%N.   (* inside the str arm: `match r.read_u8()? { B => to_utf8 .. }` *)' % str_len)
+    L.append('Definition ubj_int_width : nat := %d.          (* read_i32 / write_i32, big-endian *)' % int_width)
+    L.append('(* to_key: "key" = to_utf8 follows; "end" = the map is closed; any other byte is an error *)')
+    L.append('Definition ubj_key_arms : list (N * string) := [%s].' % '; '.join('(%d%%N, %s)' % (c, coq_str(k)) for c, k in key_arms))
+    L.append('(* write_utf8: write!(w, "<marker>"), the length as u8 (try_into().unwrap()), the bytes *)')
+    L.append('Definition ubj_wr_utf8_marker : N := %d%%N.' % wr_utf8)
+    L.append('(* write_map, after write_utf8(w, k): per serde_json::Value variant the bytes written before and after the payload')
+    L.append('   (String: write_utf8(w, s); Number: write_i32::<BigEndian>; Object: write_map(w, o)) *)')
+    L.append('Definition ubj_wr_val_arms : list (string * list N * list N) := [%s].' % '; '.join(
+        '(%s, [%s], [%s])' % (coq_str(v), '; '.join('%d%%N' % x for x in a), '; '.join('%d%%N' % x for x in b)) for v, a, b in wr_arms))
+    return '\n'.join(L) + '\n'
+
+
 def write_if_changed(path, content):
     os.makedirs(os.path.dirname(path), exist_ok=True)
     try:
@@ -2483,7 +3247,9 @@ def main():
     report = {'repo': REPO, 'files': [], 'changed': [], 'errors': []}
     ok = True
     for name, gen in (('Funs.v', gen_funs), ('Tables.v', lambda: emit_tables(gen_tables())), ('Layouts.v', gen_layouts),
-                      ('WriterSizes.v', gen_payload_sizes), ('SlppEntries.v', gen_slpp_entries)):
+                      ('WriterSizes.v', gen_payload_sizes), ('SlppEntries.v', gen_slpp_entries),
+                      ('FrameWrite.v', gen_frame_write), ('Splitter.v', gen_splitter),
+                      ('ReadTail.v', gen_read_tail), ('UbjsonMarkers.v', gen_ubjson_markers)):
         try:
             content = gen()
             if write_if_changed(os.path.join(OUT, name), content):
